@@ -473,6 +473,62 @@ theorem setmark_back {v : Int} (hfail : FailAt X ((a : Int) :: T) (v :: S) C s) 
   refine ⟨{ s2 with stack := S }, ?_, hbe.tr, rfl, hbe.cap⟩
   simp only [body, hop, modeOf, hb, hb2, casePop1Back, hbe.st]
 
+theorem capturemark_leads {g i0 : Nat} (he : Entry X a i T ((i0 : Int) :: S) C s)
+    (hia : InstrAt X.p a (i2 opCapturemark (X.sl g : Int) (-1))) (hg : X.sl g < X.p.capsize)
+    (hf : ∃ w, VM.fetch X.p (a + 3) = .ok w) :
+    Leads X s (Entry X (a + 3) i ((a : Int) :: (i0 : Int) :: T) S (C ++ [(g, min i0 i, max i0 i - min i0 i)])) := by
+  obtain ⟨w, hw⟩ := hf
+  have hoper : s.oper = ⟨opCapturemark, false, false, false, false⟩ := by
+    rw [he.oper hia]; exact decode_plain opCapturemark (by decide)
+  have hop : Op.ofNat? s.oper.op = some .capturemark := by rw [hoper]; rfl
+  have hb : s.oper.back = false := by rw [hoper]
+  have hb2 : s.oper.back2 = false := by rw [hoper]
+  have hcapok : VM.capOk X.p (X.sl g : Int) = true := by simp [VM.capOk, hg]
+  have hbody : VM.body X.p X.env s =
+      .ok (VM.push1 { s with stack := S, cap := MatchBuilder.capture s.cap (X.sl g) (i0 : Int) (i : Int) } (i0 : Int),
+        .advance 2) := by
+    simp only [body, hop, modeOf, hb, hb2, caseCapturemark, bind, Except.bind,
+      hia.operand he.pc 0 (X.sl g : Int) rfl, hia.operand he.pc 1 (-1) rfl, he.st, he.tp, pure, Except.pure]
+    simp [hcapok]
+  refine Leads.of_step (step_adv hbody (by simp only [VM.push1, he.pc]; exact hw)) (Leads.here ?_)
+  exact ⟨by simp [VM.push1, he.pc], hw, by simp [VM.push1, he.tp], by simp [VM.push1, he.pc, he.tr],
+    by simp [VM.push1], by simp only [VM.push1]; exact capRep_capture he.cap g hg i0 i⟩
+
+theorem capturemark_frame {x y : Int} (hia : InstrAt X.p a (i2 opCapturemark x y)) (v : Int) :
+    Framed X.p [(a : Int), v] := by
+  refine Framed.one _ [v] ?_
+  simp [VM.frameSize, savedPos_pos, hia.fetch]
+  decide
+
+theorem capturemark_back {g : Nat} {v : Int} {x : Nat × Nat × Nat}
+    (hfail : FailAt X ((a : Int) :: v :: T) S (C ++ [x]) s)
+    (hia : InstrAt X.p a (i2 opCapturemark (X.sl g : Int) (-1))) :
+    Leads X s (FailAt X T (v :: S) C) := by
+  obtain ⟨s2, chk, hst, hbe⟩ := fail_step hfail hia.fetch
+  refine Leads.of_step hst (Leads.here ?_)
+  have hoper : s2.oper = ⟨opCapturemark, false, true, false, false⟩ := by
+    have : decode (i2 opCapturemark (X.sl g : Int) (-1)).op = ⟨opCapturemark, false, false, false, false⟩ :=
+      decode_plain opCapturemark (by decide)
+    rw [hbe.op, this]
+  have hop : Op.ofNat? s2.oper.op = some .capturemark := by rw [hoper]; rfl
+  have hb : s2.oper.back = true := by rw [hoper]
+  have hb2 : s2.oper.back2 = false := by rw [hoper]
+  obtain ⟨rest, hcr, hrep⟩ := capRep_uncapture hbe.cap
+  refine ⟨{ s2 with track := T, stack := v :: S, cap := MatchBuilder.uncapture s2.cap }, ?_, rfl, rfl, hrep⟩
+  simp only [body, hop, modeOf, hb, hb2, caseCapturemarkBack, bind, Except.bind,
+    hia.operand hbe.pc 0 (X.sl g : Int) rfl, hia.operand hbe.pc 1 (-1) rfl, VM.restoreMark, hbe.tr, VM.spush,
+    VM.uncapture, hcr, hbe.st, pure, Except.pure]
+  simp
+
+theorem stop_step (he : Entry X a i T S C s) (hia : InstrAt X.p a (i0 opStop)) : VM.step X.p X.env s = .stop s := by
+  have hoper : s.oper = ⟨opStop, false, false, false, false⟩ := by
+    rw [he.oper hia]; exact decode_plain opStop (by decide)
+  have hop : Op.ofNat? s.oper.op = some .stop := by rw [hoper]; rfl
+  have hb : s.oper.back = false := by rw [hoper]
+  have hb2 : s.oper.back2 = false := by rw [hoper]
+  have hbody : VM.body X.p X.env s = .ok (s, .halt) := by simp only [body, hop, modeOf, hb, hb2]
+  rw [step_of_body_ok X.p X.env hbody]; rfl
+
 end control
 
 end RegexVerif.Compile
